@@ -95,3 +95,21 @@ func H_C19_RoundTrip() {
 	rt.Assert("C19.same-denom-identity", func() bool { r, e := undtypes.ConvertUndDenomination(s, "fund", "fund"); return e == nil && r == s+"fund" }())
 	rt.Reach("end")
 }
+
+// H_C19_NundToFundSigned: whole nund amounts of either sign, given in canonical decimal form:
+// FUND = nund / 10^9 with nine decimals and the sign preserved (also for |amount| < 1 FUND).
+func H_C19_NundToFundSigned() {
+	m := rt.BigInt("magnitude", 0, 129)
+	n := m
+	if rt.Bool("negative") {
+		rt.Assume(rt.IntLt(sdk.ZeroInt(), m))
+		n = m.Neg()
+	}
+	res, err := undtypes.ConvertUndDenomination(signedStr(n), "nund", "fund")
+	rt.Assert("C19.signed-nund-to-fund-ok", err == nil)
+	if err != nil {
+		return
+	}
+	rt.Assert("C19.signed-nund-to-fund-exact", rt.StrEq(res, fundStr(n)+"fund"))
+	rt.Reach("end")
+}
